@@ -300,7 +300,18 @@ def _guarded(args):
     """a task must never take its worker down (a dead worker makes Pool.map wait for ever)"""
     fn, task = args
     try:
-        return ('ok', fn(task))
+        import tsh as _t0
+        del _t0.Leaks.events[:]
+        r = fn(task)
+        if _t0.Leaks.events and isinstance(r, dict):
+            # a run left something behind in the module-level registries: reported under every property the task works for
+            ev = dict(what='a plugin / contract passed to ONE call outlived it: ' + _t0.Leaks.events[0], case=dict(note=_t0.Leaks.events[0]))
+            if isinstance(r.get('violations'), list):
+                r['violations'].append(ev)
+            elif isinstance(r.get('violations'), dict):
+                for pid in (task[3] if len(task) > 3 and task[3] else ('C06',)):
+                    r['violations'].setdefault(pid, []).append(ev)
+        return ('ok', r)
     except BaseException as e:          # incl. a stray watchdog exception
         import traceback
         import tsh as _t
